@@ -50,6 +50,9 @@ def handle : List Sexp → Option String
       some (match GenK.decodeLength (indef == "1") (← fo.toInt?) a with
         | .ok l => s!"ok {l}"
         | .error e => "err " ++ errName e)
+  | .atom "KDECTAG" :: args => do
+      let a ← intArgs args
+      some (out (GenK.decodeTag a))
   | .atom "KCERBOOL" :: .atom ln :: args => do
       let a ← intArgs args
       some (match GenK.cerBool (← ln.toInt?) a with
